@@ -54,6 +54,8 @@ def classify(diag, ev):
     if not isinstance(diag, dict):
         return "C06: trace rejected: " + str(diag)[:200]
     why = diag.get("why", "")
+    if diag.get("ev") in ("error", "panic"):
+        return f"C06: {why} with a top-K collector: " + re.sub(r"\d+", "N", str(diag.get("err", "")))[:200]
     if ev.get("ev") == "topn":
         return "C06 TopNComputer: the threshold after a push or the final sorted vector differs from the TopN machine"
     if "certificate" in why:
@@ -91,17 +93,8 @@ def count_good(ctx, good):
 
 
 def prepass(ctx, events, label):
-    """driver events that are not observations: a panic or an error of a search is a finding by itself"""
-    out = []
-    for e in events:
-        if e.get("ev") == "panic":
-            ctx.violation("C06: panic during search: " + re.sub(r"\d+", "N", e.get("msg", ""))[:200], [], json.dumps({"q": e.get("q"), "key": e.get("key")})[:2000])
-        elif e.get("ev") == "error":
-            ctx.violation("C06: search with a top-K collector returned an error: " + re.sub(r"\d+", "N", e.get("err", ""))[:200], [],
-                          json.dumps({"q": e.get("q"), "key": e.get("key")})[:2000])
-        else:
-            out.append(vlib.strip_nulls(e))
-    return out
+    """nothing is filtered: an "error" / "panic" event (a search that failed) goes to the judge, which has no action for it"""
+    return [vlib.strip_nulls(e) for e in events]
 
 
 def judge(ctx, path, name):
